@@ -24,7 +24,8 @@ def names(rng, n, prefix, pool=None):
 
 
 class Scenario:
-    def __init__(self, n, c, k, sensors, seed=0, transcendental=False, pool=None, linear=False, branchy=False, share_reading=False, rational=False, assumptions=False, nonsmooth=False, passthrough=False):
+    def __init__(self, n, c, k, sensors, seed=0, transcendental=False, pool=None, linear=False, branchy=False, share_reading=False, rational=False, assumptions=False, nonsmooth=False, passthrough=False, magnitude=False):
+        self.magnitude = magnitude
         rng = random.Random(seed * 7919 + n * 131 + c * 17 + k * 5 + sum(sensors))
         self.rng = rng
         self.n, self.c, self.k, self.sensors = n, c, k, list(sensors)
@@ -55,6 +56,10 @@ class Scenario:
                     # sign-sensitive terms (quadratic drag, magnitude readings): rewrites valid only for positive symbols change
                     # the value for negative inputs
                     e = e + coef() * sympy.sqrt(a**2) * a + sympy.sqrt(b**2) * 2 + sympy.sqrt((a - b) ** 2)  # |a|*a, 2|b|, |a-b| in a form whose derivatives sympy can print as C
+                if magnitude:
+                    # quadratic drag / magnitude terms written with Abs, on symbols WITHOUT assumptions (python back-end only: the
+                    # C printer refuses the re()/im() sympy leaves in their complex derivative)
+                    e = e + coef() * sympy.Abs(a) * a + 2 * sympy.Abs(b)
                 if rational:
                     # powers in denominators (printer precedence: mu/r**2 is not mu/r*r), negative and fractional powers
                     e = e + coef() * a / b**2 - coef() / a**3 + coef() * b / (a**2 + 1)
@@ -84,6 +89,8 @@ class Scenario:
                     e = e + coef() * v + (0 if linear else coef() * v * v)
                 if nonsmooth and obs:
                     e = e + sympy.sqrt(obs[0] ** 2) * 3 + sympy.sqrt(obs[-1] ** 2)
+                if magnitude and obs:
+                    e = e + sympy.Abs(obs[0]) * 3 + sympy.Abs(obs[-1]) * obs[0]
                 sm[r] = e
             # adversarial insertion orders: expressions in shuffled order, noise in REVERSE sorted reading-name order
             self.sensor_models[sname] = sm
@@ -110,6 +117,9 @@ class Scenario:
     def point(self, seed=0):
         rng = random.Random(seed + 991)
         pt = {s: Fraction(rng.randint(-8, 8), 4) for s in self.state + self.control}
+        if self.magnitude:
+            # |v| is not differentiable at 0: the property only speaks about points where the model is
+            pt = {s: (v if v != 0 else Fraction(-3, 4)) for s, v in pt.items()}
         pt.update({cs: Fraction(self.calibration_map[cs]) for cs in self.calibration})
         pt[self.dt] = Fraction(rng.choice([1, 2, 3, 5]), 20)
         return pt
@@ -167,6 +177,22 @@ def exact(expr, point):
     if v.is_Rational:
         return Fraction(int(v.p), int(v.q))
     return Fraction(float(v))
+
+
+def real_jacobian(F, X):
+    """ORACLE: the partial derivatives of the REAL functions F_r (a filter is only ever evaluated at real numbers).  sympy
+    differentiates a Symbol without assumptions as a complex variable (d|v|/dv keeps Derivative(re(v), v)), so the symbols are
+    given the assumption real=True first; the result is in terms of those real symbols - use `real_point` to evaluate it."""
+    rs = {s: sympy.Symbol(s.name, real=True) for s in F.free_symbols if s.is_real is None}
+    return F.xreplace(rs).jacobian([rs.get(x, x) for x in X]), rs
+
+
+def jacobian_at(F, X, sub):
+    """real_jacobian evaluated at the substitution `sub` (symbol -> exact number)."""
+    if not X:
+        return sympy.zeros(F.shape[0], 0)
+    J, rs = real_jacobian(F, X)
+    return J.subs({rs.get(k, k): v for k, v in sub.items()})
 
 
 def build_ekf(sc, config=None, container="set"):
